@@ -183,6 +183,7 @@ class MQWorld:
             "st": [st.messages_published, st.messages_delivered, st.messages_redelivered,
                    st.messages_acknowledged, st.messages_dead_lettered],
             "np": len(self.byord),
+            "pc": q.pending_count, "fc": q.in_flight_count,      # the public counters
         }
 
     def log(self, a, m=0, c=0, x=0, snap=None):
@@ -371,7 +372,51 @@ def scenario_from_path(root_state, path, cfg):
     return dict(cfg, subs0=list(q0["subs"]), ops=ops, react=[])
 
 
+def adversarial_scenario(rng: random.Random):
+    """Several redeliveries outstanding at once (timeouts in a burst, in publish or reverse order), late
+    acks / rejects of timed-out messages, then fresh publishes and polls after the timers fired."""
+    nc = rng.randint(1, 2)
+    n = rng.randint(2, 4)
+    lat, rdel = rng.choice((0, 0, 1)), rng.randint(1, 3)
+    sc = {"nc": nc, "lat": lat, "rdel": rdel, "maxr": rng.choice((2, 3, 5)), "cap": 0, "dlq": rng.random() < 0.8,
+          "loop": rng.choice(("auto", "fast", "control")), "subs0": list(range(1, nc + 1))}
+    ops = [[0, 0, "pub", 0] for _ in range(n)] + [[1, 0, "poll", 0] for _ in range(n)]
+    t = 2 + lat
+    order = list(range(1, n + 1))
+    if rng.random() < 0.5:
+        order.reverse()
+    for m in order:
+        if rng.random() < 0.85:
+            ops.append([t + (rng.randint(0, 1) if rng.random() < 0.3 else 0), rng.choice((0, 0, 1)), "tmo", m])
+    # between the timeouts and the timers: late settlements and polls
+    for m in range(1, n + 1):
+        r = rng.random()
+        if r < 0.3:
+            ops.append([t + rng.randint(0, rdel), rng.choice((0, 1, 2)), rng.choice(("ack", "rej", "drop")), m])
+    for _ in range(rng.randint(0, 2)):
+        ops.append([t + rng.randint(0, rdel), rng.choice((0, 1)), "poll", 0])
+    # after the timers fired: settle some, publish more, poll a lot
+    t2 = t + rdel + lat + 1
+    for m in range(1, n + 1):
+        if rng.random() < 0.6:
+            ops.append([t2 + rng.randint(0, 1), 0, rng.choice(("ack", "ack", "rej")), m])
+    extra = rng.randint(1, 2)
+    ops += [[t2 + 1, 0, "pub", 0] for _ in range(extra)]
+    ops += [[t2 + 2 + k, 0, "poll", 0] for k in range(extra + 2)]
+    ops.sort(key=lambda o: o[0])
+    react = []
+    for m in range(n + 1, n + extra + 1):
+        react.append([m, 1, "ack", rng.choice((0, 1))])
+    for m in range(1, n + 1):
+        if rng.random() < 0.5:
+            react.append([m, 2, rng.choice(("ack", "rej")), rng.choice((0, 0, 1))])
+    sc["ops"], sc["react"] = ops, react
+    return sc
+
+
 def random_scenario(rng: random.Random, lat=None):
+    if lat is None and rng.random() < 0.25:
+        return adversarial_scenario(rng)
     nc = rng.randint(1, 3)
     sc = {"nc": nc, "lat": rng.choice((0, 0, 1, 2)) if lat is None else lat, "rdel": rng.randint(1, 3),
           "maxr": rng.choice((0, 1, 2, 2, 3, 4)), "cap": rng.choice((0, 0, 0, 2, 3)),
